@@ -212,6 +212,18 @@ def apply(name, cfg):
 
 
 def cases(tier, r):
+  # stage A: materialize_defaults on one Buildable against the Lean ArgStore model (the function
+  # the C20 theorems are about): random edit history, then materialize twice
+  from harness import argstore
+  for _ in range(500 if tier == 'quick' else 8000):
+    sig = argstore.random_sig(r)
+    fresh = argstore.Fresh()
+    args, kwargs = argstore.gen_init(r, sig, fresh, malformed=0.0)
+    ops = [o for o in argstore.gen_ops(r, sig, fresh, r.randint(0, 5))
+           if o[0] not in ('update_callable', 'copy_with', 'suspend', 'resume')]
+    ops += [['materialize'], ['materialize']]
+    yield 'flat', {'p': 'argstore', 'sig': sig, 'args': args, 'kwargs': kwargs, 'ops': ops,
+                   'transform': 'materialize_flat'}
   for _ in range(800 if tier == 'quick' else 12000):
     yield 'dag', {'seed': r.getrandbits(48), 'size': r.choice([3, 5, 8]), 'transform': r.choice(TRANSFORMS[:7]),
                   'flavour': r.choice(['plain', 'special', 'special', 'serializable'])}
@@ -298,6 +310,11 @@ def serializable(c):
 def execute(case):
   name = case['transform']
   obs = {'transform': name}
+  if name == 'materialize_flat':
+    from harness import argstore
+    real, _cfg = argstore.run_real(case)
+    real['transform'] = name
+    return real, {k: case[k] for k in ('p', 'sig', 'args', 'kwargs', 'ops')}
   if name == 'inline':
     cfg = outer.as_buildable(case['seed'])
     base = build_canon(cfg)
@@ -361,12 +378,38 @@ def execute(case):
   return obs, None
 
 
+FLAT_FIELDS = ['res', 'view', 'oa', 'oa_all', 'tags', 'build']
+
+
 def compare(real, model):
-  return []
+  if model is None or real.get('transform') != 'materialize_flat':
+    return []
+  from harness import argstore
+  return argstore.diff_fields(real, argstore.norm_model(model), FLAT_FIELDS)
+
+
+def flat_oracle(case, real):
+  """materialize_defaults on one Buildable: what is built is unchanged, the second run changes
+  nothing, every named default is set."""
+  if real['init'] == 'err' or len(real['steps']) < 2:
+    return None
+  first, second = real['steps'][-2], real['steps'][-1]
+  prev = real['steps'][-3]['state'] if len(real['steps']) >= 3 else real['init']
+  if first['res'] == 'err':
+    return None
+  if first['state']['build'] != prev['build']:
+    return {'what': 'materialize_defaults changed what is built', 'before': prev['build'],
+            'after': first['state']['build']}
+  if second['res'] == 'err' or second['state']['oa_all'] != first['state']['oa_all'] \
+      or second['state']['tags'] != first['state']['tags']:
+    return {'what': 'materialize_defaults is not idempotent'}
+  return None
 
 
 def oracle(case, real):
   name = real['transform']
+  if name == 'materialize_flat':
+    return flat_oracle(case, real)
   if 'raised' in real:
     return {'what': f'{name} raised', 'raised': real['raised']}
   if name == 'inline':
@@ -400,6 +443,10 @@ def classify(case, fail):
 
 
 def nontrivial(case, real):
+  if real.get('transform') == 'materialize_flat':
+    if real['init'] == 'err' or real['steps'][-2]['res'] == 'err':
+      return None
+    return (json.dumps(case['sig']), json.dumps(case['args']), json.dumps(case['kwargs']), len(case['ops']))
   if 'raised' in real or isinstance(real.get('before'), dict):
     return None
   return (case['seed'], real['transform'])
